@@ -82,11 +82,15 @@ func ReplayCborDec(cs *DecCase, relaxed bool, maxDepth int64) (*run.Finding, int
 	// cut into two reads just before its last byte and at one more place.
 	if len(inp) > 0 {
 		cutAt := []int{len(inp) - 1, (len(inp)*7 + int(inp[0])) % len(inp)}
-		for di := 0; di < 3; di++ {
+		for di := 0; di < 4; di++ {
 			var r io.Reader
 			how := "one byte per Read"
 			if di == 0 {
 				r = iotest.OneByteReader(bytes.NewReader(inp))
+			} else if di == 3 {
+				// the last bytes arrive TOGETHER with io.EOF (a legal way for a reader to end)
+				r = iotest.DataErrReader(bytes.NewReader(inp))
+				how = "the final read returns data together with io.EOF"
 			} else {
 				c := cutAt[di-1]
 				if c == 0 {
